@@ -7,17 +7,23 @@ import random
 from .. import common, runner, asyncctl, c08judge
 from ..runner import Exploration, Failure
 
-SUSP_SLOTS = asyncctl.TRANSITION_SLOTS + ['finalize_event']
+EVENTS_FLAT = ['go', 'go', 'go', 'stay']
+EVENTS_HSM = ['go', 'go', 'nest', 'nest', 'stay']
 
 
 # -------------------------------------------------------------------------------------------------
 # generator
 # -------------------------------------------------------------------------------------------------
 
+def slots_of(case):
+    return asyncctl.TRANSITION_SLOTS if case['hsm'] else asyncctl.FLAT_TRANSITION_SLOTS
+
+
 def gen_event_script(rng, case, tag, depth, next_tag, allow_nested=True, late_ok=False):
     """fill case['script'] for event `tag`; may allocate nested triggers"""
     sc = case['script']
-    slots = SUSP_SLOTS + (['on_exception'] if case['on_exc'] else [])
+    tslots = slots_of(case)
+    slots = tslots + ['finalize_event'] + (['on_exception'] if case['on_exc'] else [])
     for _ in range(rng.choice([0, 1, 1, 2, 2])):
         slot = rng.choice(slots)
         idx = rng.choice([1, 2]) if slot != 'conditions' else 2
@@ -29,19 +35,21 @@ def gen_event_script(rng, case, tag, depth, next_tag, allow_nested=True, late_ok
         slot = rng.choice(slots)
         sc.setdefault('%d:%s:2' % (tag, slot), []).append(['raise', tag])
     elif special < 0.45 and allow_nested and depth < 2:
-        slot = rng.choice(asyncctl.TRANSITION_SLOTS)
+        # (a trigger awaited from a nested state's own enter/exit callback re-enters the hierarchical engine in the
+        #  middle of its scope handling: single-task re-entrancy, C02/C05 territory, not a schedule matter)
+        slot = rng.choice(asyncctl.FLAT_TRANSITION_SLOTS)
         key = '%d:%s:2' % (tag, slot)
         if not any(op[0] == 'ret' for op in sc.get(key, [])):
             nt = next_tag[0]
             next_tag[0] += 1
             mi = rng.randrange(case['n_models'] - (0 if late_ok else len(case.get('late', []))))
-            sc.setdefault(key, []).append(['trig', mi, rng.choice(['go', 'go', 'stay']), nt])
+            sc.setdefault(key, []).append(['trig', mi, rng.choice(EVENTS_HSM if case['hsm'] else EVENTS_FLAT), nt])
             # gather lets the event go on as soon as ONE child of the stage ends cancelled: a suspended sibling
             # would let the event overtake its own nested call (not covered by the statement) — none here
             sc.pop('%d:%s:1' % (tag, slot), None)
             gen_event_script(rng, case, nt, depth + 1, next_tag, late_ok=late_ok)
     if case['queued'] != 2 and case['n_models'] > 1 and rng.random() < 0.1:
-        slot = rng.choice(asyncctl.TRANSITION_SLOTS)
+        slot = rng.choice(tslots)
         if slot != 'conditions':
             sc.setdefault('%d:%s:0' % (tag, slot), []).append(['remove', rng.randrange(case['n_models'] - len(case.get('late', [])))])
     # the `ret` of a condition must stay the last op before a raise/trig is not required; keep order as built
@@ -57,20 +65,25 @@ def gen_case(rng, big=False, force=None):
         case.update(force)
     case['attach'] = rng.choice(['ctor', 'list', 'list', 'each'])
     case['late'] = []
-    if case['n_models'] >= 2 and rng.random() < 0.2:
+    # (flat machines only: on a hierarchical machine add_model from a callback runs in whatever scope another model's
+    #  nested transition has set — one more symptom of finding hsm.concurrent_scope, with unrelated exceptions)
+    if case['n_models'] >= 2 and rng.random() < 0.2 and not case['hsm']:
         case['late'] = [case['n_models'] - 1]
     n = rng.choice([2, 3, 3, 4] if big else [2, 2, 3])
     early = case['n_models'] - len(case['late'])
     for tag in range(n):
-        case['triggers'].append([rng.randrange(early), rng.choice(['go', 'go', 'go', 'stay'])])
+        case['triggers'].append([rng.randrange(early), rng.choice(EVENTS_HSM if case['hsm'] else EVENTS_FLAT)])
         if case['queued'] == 0 and rng.random() < 0.12:
             case['protected'].append(tag)
     next_tag = [n]
     for tag in range(n):
         gen_event_script(rng, case, tag, 0, next_tag)
+    case['delays'] = []
+    if rng.random() < 0.3:
+        case['delays'] = [0] + [rng.choice([0, 0, 1, 2, 3, 5, 8, 13, 21, 34]) for _ in range(n - 1)]
     for lm in case['late']:
         # a plain callback of event 0 attaches the model, the stage's last callback then awaits a trigger on it
-        slot = rng.choice([x for x in asyncctl.TRANSITION_SLOTS if x != 'conditions'])
+        slot = rng.choice([x for x in asyncctl.FLAT_TRANSITION_SLOTS if x != 'conditions'])
         key = '0:%s:2' % slot
         if any(op[0] in ('trig', 'raise') for op in case['script'].get(key, [])):
             case['late'] = []
@@ -116,7 +129,12 @@ def evaluate(cases):
         if c['queued'] and mon != 'ok' and r.hang is None:
             fs.append(Failure('monitor', 'verified-monitor.serialOK', c, {'monitor': mon},
                               signature=signature('serialOK')))
-        if acc != 'ok' and r.hang is None and not labs_race(r):
+        if any(f.what == 'hsm.concurrent_scope' for f in fs):
+            # the machine-wide scope of the hierarchical machine was corrupted (listed finding): whatever else goes
+            # wrong in this run (add_model in the wrong scope, lost events, …) is a consequence of it
+            fs = [f for f in fs if f.what == 'hsm.concurrent_scope']
+        scope_finding = c08judge.hsm_value_error(c, r.log, r.labels)
+        if acc != 'ok' and r.hang is None and not labs_race(r) and not scope_finding:
             k = int(acc.split()[1]) if acc.startswith('reject') else -1
             fs.append(Failure('correspondence', 'trace_inclusion', c,
                               {'model': acc, 'rejected_label': c08judge.show_label(r.labels[k]) if 0 <= k < len(r.labels) else None,
@@ -154,6 +172,7 @@ def note_stats(st, case, run):
     inc('machine', 'hsm' if case['hsm'] else 'flat')
     inc('attach', case.get('attach', 'ctor') + ('+late' if case.get('late') else ''))
     inc('top_level_triggers', str(len(case['triggers'])))
+    inc('arrival', 'delayed' if any(case.get('delays', [])) else 'together')
     inc('quiescence_points', str(min(run.nquiet, 8)))
     inc('cancelled_tasks', str(min(sum(1 for it in run.log if it[0] == 'cancel'), 4)))
     inc('nested_calls', str(min(sum(1 for it in run.log if it[0] == 'begin' and it[1] != it[2]), 3)))
@@ -166,7 +185,8 @@ def note_stats(st, case, run):
             inc('remove_model', 'calls')
     if case['protected']:
         inc('protected', 'cases')
-    inc('inclusion', 'skipped_exception_vs_cancel_race' if labs_race(run) else 'judged')
+    inc('inclusion', 'skipped_exception_vs_cancel_race' if labs_race(run) else
+        ('skipped_hsm_value_error' if c08judge.hsm_value_error(case, run.log, run.labels) else 'judged'))
 
 
 # -------------------------------------------------------------------------------------------------
@@ -220,6 +240,55 @@ def chunk(seed, idx, n_cases, per_case, big=False):
     return ex
 
 
+def gen_sweep_program(rng):
+    """queued program whose callbacks do not suspend (or hardly): the only freedom is the LOOP ITERATION at which the
+    later triggers arrive"""
+    case = {'hsm': rng.random() < 0.3, 'queued': rng.choice([1, 2]), 'on_exc': rng.random() < 0.2, 'ignore': False,
+            'n_models': rng.choice([1, 2, 2]), 'protected': [], 'triggers': [], 'script': {}, 'schedule': [],
+            'attach': rng.choice(['ctor', 'list', 'each']), 'late': [], 'delays': []}
+    n = rng.choice([2, 2, 3])
+    evs = EVENTS_HSM if case['hsm'] else EVENTS_FLAT
+    for tag in range(n):
+        case['triggers'].append([rng.randrange(case['n_models']), rng.choice(evs)])
+    if case['queued'] == 2:
+        case['triggers'][-1][0] = case['triggers'][0][0]          # same queue as the first trigger
+    for tag in range(n):
+        r = rng.random()
+        if r < 0.15:
+            case['script']['%d:%s:2' % (tag, rng.choice(slots_of(case) + ['finalize_event']))] = [['raise', tag]]
+        elif r < 0.3:
+            case['script']['%d:conditions:2' % tag] = [['ret', 0]]
+        elif r < 0.45:
+            case['script']['%d:%s:2' % (tag, rng.choice(slots_of(case) + ['finalize_event']))] = [['susp']]
+    return case
+
+
+def sweep_chunk(seed, idx, n_programs, max_delay):
+    """arrival sweep: the last trigger starts after d = 0 … (trips of the undelayed run + 2) bare loop trips"""
+    rng = random.Random('C08/sweep/%d/%d' % (seed, idx))
+    ex = Exploration()
+    for _ in range(n_programs):
+        base = gen_sweep_program(rng)
+        n = len(base['triggers'])
+        (r0, fs0), = evaluate([dict(base, delays=[0] * n)])
+        top = min(r0.trips + 2, max_delay)
+        cases = [dict(base, delays=[0] * (n - 1) + [d]) for d in range(1, top + 1)]
+        if n == 3:
+            cases += [dict(base, delays=[0, d, top]) for d in range(1, top + 1, 3)]
+        res = [(r0, fs0)] + evaluate(cases)
+        for c, (r, fs) in zip([dict(base, delays=[0] * n)] + cases, res):
+            ex.evaluations += 1
+            ex.traces_validated += 1
+            note_stats(ex.stats, c, r)
+            if nontrivial(c, r):
+                ex.nontrivial.add(fingerprint(c))
+            ex.failures += fs
+        d = ex.stats.setdefault('arrival_sweep', {})
+        d['programs'] = d.get('programs', 0) + 1
+        d['delays_tried'] = d.get('delays_tried', 0) + len(cases) + 1
+    return ex
+
+
 # -------------------------------------------------------------------------------------------------
 # shrinking
 # -------------------------------------------------------------------------------------------------
@@ -258,7 +327,7 @@ def shrink_steps(case):
         c = copy.deepcopy(case)
         c['on_exc'] = False
         yield c
-    if case['hsm']:
+    if case['hsm'] and 'nest' not in json.dumps(case):
         c = copy.deepcopy(case)
         c['hsm'] = False
         yield c
@@ -266,17 +335,24 @@ def shrink_steps(case):
         c = copy.deepcopy(case)
         c['schedule'] = c['schedule'][:-1]
         yield c
+    if case.get('attach', 'ctor') != 'ctor' and not case.get('late'):
+        c = copy.deepcopy(case)
+        c['attach'] = 'ctor'
+        yield c
 
 
 def fails_like(kind, what):
     def f(case):
         (r, fs), = evaluate([case])
+        if any(it[0] == 'raised' and it[2] == 'AttributeError' for it in r.log):
+            return False        # shrinking detached a late model from its ["add"] op: not a smaller witness
         return any(x.kind == kind and x.what == what for x in fs)
     return f
 
 
 class C08(runner.Check):
     prop = 'C08'
+    strict_correspondence = True     # a listed finding never masks a broken inclusion
     level = 'proof'
     theorems = ('TM.C08_queue_order', 'TM.C08_queue_serial', 'TM.C08_model_queue', 'TM.C08_fail_clears_own_queue',
                 'TM.C08_cancel_targets', 'TM.C08_cancelled_behaviour', 'TM.C08_state_not_overwritten',
@@ -310,7 +386,10 @@ class C08(runner.Check):
             'slot registered as plain function / coroutine / coroutine suspending on harness futures (0-2 suspension points '
             'per event), raising callbacks, failing conditions, triggers awaited from callbacks (nested up to depth 2), '
             'remove_model; models attached through the constructor list / ONE add_model([..]) call / one add_model call per model / '
-            'add_model from a callback during the run (then triggered from that callback); queued="model" programs always have '
+            'add_model from a callback during the run (then triggered from that callback); arrival at arbitrary loop iterations '
+            '(top-level trigger k starts after delays[k] bare sleep(0) trips; an arrival-sweep stream tries every delay up to the '
+            'length of the run on queued programs without suspension points); hierarchical machines with callbacks on nested '
+            'states and child->parent transitions; queued="model" programs always have '
             '2-3 models and a higher share of raising events; for each program ALL release orders are enumerated (DFS over the pending futures at every '
             'quiescence; capped per program, the cap and the number of completely enumerated programs are in '
             'distribution.programs); a case = program + release order; non-trivial = a task was actually cancelled, or a '
@@ -335,19 +414,26 @@ class C08(runner.Check):
             'programs: at most one raising / nested-trigger callback per event and stage, nested trigger is the last '
             'action of its callback, events used are valid from every state (no MachineError path), remove_model only '
             'with queued False/True; hierarchical machine without parallel states',
+            'HierarchicalAsyncMachine: an event failing with ValueError while an event of another model is processed is the '
+            'known finding hsm.concurrent_scope; the same between two non-cancelled transitions of ONE model is not judged; '
+            'such traces are outside the protocol model (inclusion skipped, counted)',
+            'the model treats the queue check and the drain as atomic steps, as the code does (no await between them)',
             'after one callback of a gather stage raised, sibling callbacks that are still suspended may outlive the '
             'event: their later completions are ignored (not covered by the statement)',
         ]
 
     def budget(self, tier):
         # (chunks, programs per chunk, release orders per program)
-        return (32, 40, 80) if tier == 'quick' else (64, 120, 200)
+        return (32, 28, 60) if tier == 'quick' else (64, 120, 200)
 
     def explore(self, tier, seed):
         nch, per, cap = self.budget(tier)
         payloads = [(seed, i, per, cap, (tier != 'quick' and i % 2 == 1)) for i in range(nch)]
         ex = Exploration()
         for part in runner.parallel(chunk, payloads):
+            ex.merge(part)
+        nsw, psw, dmax = (32, 3, 70) if tier == 'quick' else (64, 12, 90)
+        for part in runner.parallel(sweep_chunk, [(seed, i, psw, dmax) for i in range(nsw)]):
             ex.merge(part)
         done = set()
         for f in ex.failures:
